@@ -56,6 +56,9 @@ class Pipeline:
         Returns:
             Pipeline: The class instance.
         """
-        if cls._instance is None:
+        if cls is Pipeline:
+            # Used as decorator: every decorated function is a pipeline of its own.
+            return super(Pipeline, cls).__new__(cls)
+        if cls.__dict__.get("_instance") is None:  # one instance per inheriting class
             cls._instance = super(Pipeline, cls).__new__(cls)
-        return cls._instance
+        return cls._instance  # type: ignore[return-value]
